@@ -230,7 +230,7 @@ def fitness_oracle(ctx, rep):
         if math.isfinite(f1) != math.isfinite(f2) or (math.isfinite(f1) and abs(f1 - f2) > 1e-9):
             rep.violate(f"implicit fitness changed from {f1} to {f2} when the equation was multiplied by {alpha}", "C20:not-scale-invariant", case)
     # an exact invariant: x0^2 + x1^2 on a circle
-    tt = np.linspace(0, 2, 40)
+    tt = np.linspace(0.2, 1.3, 40)      # away from multiples of pi/2, where every term of the row vanishes (0/0)
     x = np.column_stack([np.cos(tt), np.sin(tt)])
     dx = np.column_stack([-np.sin(tt), np.cos(tt)])
     data = ImplicitTrainingData(x, dx)
